@@ -813,7 +813,8 @@ func (c *Client) handleOutgoing() error {
 		if msg.typ == MsgGetSupportedVersion || msg.typ == MsgSetProtocolVersion {
 			// these messages are required to use version 1.1
 			msg.version = Version1_1
-		} else if msg.version == 0 {
+		} else {
+			// every other message carries the negotiated version
 			msg.version = c.version
 		}
 
